@@ -224,6 +224,57 @@ def path_tie(ctx):
             ctx.divergence('_parse_path: scanner model and real regex loop disagree', t, model=out, impl=real)
 
 
+# ----------------------------------------------------------------------------------------------- tie: several paths in one statement
+
+def composite_tie(ctx):
+    """`build_json_path` driven on a bare real builder for the paths of one statement (parameters + constants): the key of every composite
+    parameter, which parameter object is reused, and the text each one evaluates to — against `paramKey` / `makeComposite` / `evalComposite`"""
+    rng = ctx.rng
+    reqs, reals, inputs = [], [], []
+    for i in range(ctx.scale(300, 3000)):
+        b = object.__new__(sq.SQLiteBuilder)
+        b.keys = {}; b.paramstyle = 'qmark'; b.indent = 0; b.json1_available = True
+        nparams = rng.choice([1, 1, 2, 3])
+        values = {('v%d' % j,): rng.choice(['x', 'a b', 'k1', 0, 1, 2]) for j in range(nparams)}
+        base = []
+        for _ in range(rng.choice([1, 2, 3])):
+            base.append(('p', rng.randrange(nparams)) if rng.random() < 0.6 else ('c', rng.choice([0, 1, 2, '0', '1', 'x', 'a b', 'k1', -1])))
+        if not any(t == 'p' for t, _ in base): base[0] = ('p', 0)
+        paths = [base]
+        for _ in range(rng.choice([1, 1, 2, 3])):
+            q = list(rng.choice(paths))
+            r = rng.random()
+            pos = rng.randrange(len(q))
+            if r < 0.5 and q[pos][0] == 'c': q[pos] = ('c', rng.choice([0, 1, 2, '0', '1', 'x', 'k1']))        # differs in one constant only
+            elif r < 0.7: q[pos] = ('p', rng.randrange(nparams))
+            elif r < 0.85: q.append(('c', rng.choice([0, 1, 'x'])))
+            paths.append(q)                                                                          # else: the same path again
+        real_params = []
+        asts = [[['PARAM', (('v%d' % v,), None, None), None] if t == 'p' else ['VALUE', v] for t, v in q] for q in paths]
+        objs = [b.build_json_path(a)[0] for a in asts]
+        first = {}
+        for k, o in enumerate(objs):
+            first.setdefault(id(o), k)
+            key = [['p', int(e[0][0][1:])] if isinstance(e, tuple) else ['i', e] if isinstance(e, int) else ['s', e] if isinstance(e, str) else ['none'] for e in o.paramkey]
+            real_params.append({'key': key, 'shared_with': first[id(o)], 'text': o.eval(values)})
+        reqs.append({'op': 'paramkey', 'paths': [[[t, v] for t, v in q] for q in paths]})
+        reals.append(real_params); inputs.append({'paths': paths, 'values': {k[0]: v for k, v in values.items()}})
+    outs = ctx.driver('C29', reqs)
+    for inp, real, out in zip(inputs, reals, outs):
+        ctx.case(['composite', inp['paths']], kind='tie:composite:%d-paths' % len(inp['paths']))
+        if 'driver_error' in out: ctx.divergence('driver error', inp, model=out, impl=None); continue
+        for k, (r, m) in enumerate(zip(real, out['params'])):
+            own = SQLBuilder.eval_json_path([inp['values']['v%d' % v] if t == 'p' else v for t, v in inp['paths'][k]])
+            model_items = [[t, v] for t, v in m['items']]
+            model_text = SQLBuilder.eval_json_path([inp['values']['v%d' % v] if t == 'p' else v for t, v in model_items])
+            if r['key'] != m['key']:
+                ctx.divergence('composite parameter key: model paramKey and the real paramkey disagree', [inp, k], model=m['key'], impl=r['key'])
+            elif r['text'] != model_text:
+                ctx.divergence('composite parameter: the parameter reused by the real builder evaluates to another path than in the model', [inp, k], model=model_text, impl=r['text'])
+            if r['text'] != own:
+                ctx.count('composite:path-bound-to-another-text')     # the property-level consequence is searched by the multi-path oracle
+
+
 # ----------------------------------------------------------------------------------------------- tie: navigation helpers
 
 def tagged_or_error(f):
@@ -531,6 +582,44 @@ class Oracle:
                 self.violation(cls, 'JSON %s in a query differs from the operation on the decoded Python value' % op, inp, got, expected)
         return got, expected, ok
 
+    # ---- several JSON path expressions in ONE query (projection and conditions), parameter and constant segments mixed
+    def json_multi(self, json1, rid, doc, paths, flags, mode, gen):
+        """paths: list of clean hit paths; flags[i][j]: segment j of path i is passed as an external variable (one variable per distinct value)"""
+        ctx = self.ctx
+        db, D = self.db(json1)
+        names = {'rid': rid}; var = {}
+        def seg(v, as_param):
+            if not as_param: return repr(v)
+            k = (type(v).__name__, v)
+            if k not in var: var[k] = 'q%d' % len(var); names[var[k]] = v
+            return var[k]
+        exprs = ['x.data' + ''.join('[%s]' % seg(k, f) for k, f in zip(p, fl)) for p, fl in zip(paths, flags)]
+        vals = [py_navigate(doc, p)[1] for p in paths]
+        if mode == 'project':
+            src = '(%s) for x in D if x.id == rid' % ', '.join(exprs)
+            expected = ('value', tuple(vals))
+        else:
+            # conditions: every path compared with a constant of its own type; `want` says whether all of them hold
+            consts, want = mode[1], mode[2]
+            src = 'x.id for x in D if x.id == rid and ' + ' and '.join('%s == %r' % (e, c) for e, c in zip(exprs, consts))
+            expected = ('bool', want)
+        with db_session:
+            res = run_query(D, src, names, gen)
+        if res[0] == 'ok':
+            rows = res[1]
+            if mode == 'project': got = ('value', tuple(rows[0])) if len(rows) == 1 else ('rows', len(rows))
+            else: got = ('bool', bool(rows))
+        else: got = res
+        inp = {'json1': json1, 'doc': doc, 'paths': paths, 'param_segments': flags, 'variables': {v: k[1] for k, v in var.items()}, 'gen': gen,
+               'query': ('select(%s)' if gen else 'select(%r)') % src}
+        ctx.case(['json-multi', json1, doc, paths, flags, mode if mode == 'project' else list(mode), gen],
+                 kind='oracle:json-multi:%s:%s:%d-paths' % ('json1' if json1 else 'fallback', mode if mode == 'project' else 'conditions', len(paths)))
+        ok = got[0] == expected[0] and (same(list(got[1]), list(expected[1])) if mode == 'project' else got[1] == expected[1])
+        if not ok:
+            self.violation(None, 'several JSON path expressions in one query: the result differs from the same expressions on the decoded Python value', inp,
+                           list(got[1]) if isinstance(got[1], tuple) else got, list(expected[1]) if isinstance(expected[1], tuple) else expected)
+        return ok
+
     def op_class(self, op, v, arg):
         if op in ('truthy', 'not') and isinstance(v, float) and v == 0.0: return 'json-truthy-float-zero'
         if op == 'len' and isinstance(v, dict): return 'json-len-object'
@@ -673,6 +762,73 @@ def oracle_json(ctx, orc):
                     orc.json_op(j1, rids[j1], doc, path, op, arg, as_params=as_params, gen=gen)
 
 
+def clean_key(k):
+    """keys / indexes outside every recorded defect class (those are covered by the single-path stream)"""
+    if isinstance(k, int): return k >= 0
+    return not any(c in '"\\' or ord(c) < 32 for c in k)
+
+
+def clean_paths(doc, limit=40):
+    """every hit path of clean segments (depth <= 4)"""
+    out = []
+    def walk(v, p):
+        if len(out) >= limit: return
+        if p: out.append(list(p))
+        if len(p) >= 4: return
+        if isinstance(v, dict):
+            for k in sorted(v):
+                if clean_key(k): walk(v[k], p + [k])
+        elif isinstance(v, list):
+            for i, x in enumerate(v): walk(x, p + [i])
+    walk(doc, [])
+    return out
+
+
+def oracle_json_multi(ctx, orc):
+    rng = ctx.rng
+    made = 0; target = ctx.scale(45, 500); guard = 0
+    while made < target and guard < target * 10:
+        guard += 1
+        doc = gen_doc(rng)
+        if rng.random() < 0.5:
+            # siblings under one container, so that paths differ in ONE constant segment only
+            doc = dict(doc) if isinstance(doc, dict) else {'w': doc}
+            doc[rng.choice(['x', 'y', 'k1'])] = [gen_scalar(rng) for _ in range(rng.choice([2, 3]))]
+            doc[rng.choice(['m', 'a b'])] = {'0': gen_scalar(rng), '1': gen_scalar(rng), 'x': [gen_scalar(rng), gen_scalar(rng)]}
+        cands = clean_paths(doc)
+        if len(cands) < 2: continue
+        p0 = rng.choice([p for p in cands if len(p) >= 2] or cands)
+        sibs = [p for p in cands if len(p) == len(p0) and p[:-1] == p0[:-1] and p != p0]
+        paths = [p0]
+        for _ in range(rng.choice([1, 1, 2])):
+            paths.append(rng.choice(sibs) if sibs and rng.random() < 0.75 else rng.choice(cands))
+        # which segments are external variables: the shared prefix mostly, the differing last segment mostly constant
+        pat = [rng.random() < 0.6 for _ in range(4)]
+        flags = []
+        for p in paths:
+            fl = [pat[j] for j in range(len(p))]
+            if rng.random() < 0.7: fl[-1] = False
+            if rng.random() < 0.15: fl = [rng.random() < 0.5 for _ in p]
+            flags.append(fl)
+        if not any(any(fl) for fl in flags): flags[0][0] = True
+        rids = {j1: orc.store(j1, data=doc) for j1 in (True, False)}
+        gen = rng.random() < 0.7
+        vals = [py_navigate(doc, p)[1] for p in paths]
+        modes = ['project']
+        if all(type(v) in (int, str, bool) for v in vals):
+            # the values themselves (all conditions hold), and with one constant replaced by the value of ANOTHER path (must not hold)
+            modes.append(('cond', list(vals), True))
+            for i in range(len(vals)):
+                for j in range(len(vals)):
+                    if i != j and type(vals[i]) is type(vals[j]) and vals[i] != vals[j]:
+                        c = list(vals); c[i] = vals[j]
+                        modes.append(('cond', c, False)); break
+        for mode in modes[:3]:
+            for j1 in (True, False):
+                orc.json_multi(j1, rids[j1], doc, paths, flags, mode, gen)
+        made += 1
+
+
 def oracle_array(ctx, orc, clamp):
     rng = ctx.rng
     grid = [None, 0, 1, 2, 3, 5, -1, -2, -3, -4, -6]
@@ -714,6 +870,7 @@ def run(ctx):
     if ctx.driver.ok:
         lits, cte, clamp = lits_tie(ctx)
         path_tie(ctx)
+        composite_tie(ctx)
         nav_tie(ctx, lits)
         array_tie(ctx, clamp)
     else:
@@ -722,6 +879,7 @@ def run(ctx):
     orc = Oracle(ctx, lits)
     witnesses(ctx, orc)
     oracle_json(ctx, orc)
+    oracle_json_multi(ctx, orc)
     oracle_array(ctx, orc, clamp)
     for db, D in orc.dbs.values(): db.disconnect()
 
@@ -731,7 +889,10 @@ def replay(ctx, data):
     inp = data.get('input') or {}
     try:
         orc = Oracle(ctx, [])
-        if isinstance(inp, dict) and 'doc' in inp:
+        if isinstance(inp, dict) and 'paths' in inp:
+            rid = orc.store(inp['json1'], data=inp['doc'])
+            orc.json_multi(inp['json1'], rid, inp['doc'], inp['paths'], inp['param_segments'], 'project', inp.get('gen', True))
+        elif isinstance(inp, dict) and 'doc' in inp:
             rid = orc.store(inp['json1'], data=inp['doc'])
             arg = inp.get('arg'); arg = tuple(arg) if isinstance(arg, list) else arg
             orc.json_op(inp['json1'], rid, inp['doc'], inp['path'], inp['op'], arg, as_params=inp.get('params', False), gen=inp.get('gen', True))
